@@ -148,6 +148,40 @@ func c11Identify() ([]uint32, []bool, error) {
 	return ids, unatt, ferr
 }
 
+// c11Read24Check: Bus.EaRead24_wrap (the CPU's pointer and long-operand fetch) at a must return the three
+// bytes the single reads return at a, a+1, a+2 (wrapping inside the bank), under two fills (low byte of
+// the location id; class byte); "" if so.
+func c11Read24Check(s *emulator.System, a uint32) string {
+	for _, k := range []uint{0, 3} {
+		c11Fill(s, k)
+		if w := c11Read24One(s, a); w != "" {
+			return w
+		}
+	}
+	return ""
+}
+
+func c11Read24One(s *emulator.System, a uint32) string {
+	var want uint32
+	for i := uint32(0); i < 3; i++ {
+		v, p := c11Read(s, a&0xFF0000|(a+i)&0xFFFF)
+		if p {
+			return "" // one of the bytes is not attached: outside the property
+		}
+		want |= uint32(v) << (8 * i)
+	}
+	var got uint32
+	var pn interface{}
+	func() {
+		defer func() { pn = recover() }()
+		got = s.Bus.EaRead24_wrap(byte(a>>16), uint16(a))
+	}()
+	if pn != nil || got != want {
+		return fmt.Sprintf("Bus.EaRead24_wrap($%02x,$%04x) = $%06x (panic %v), the three single reads give $%06x", a>>16, a&0xFFFF, got, pn, want)
+	}
+	return ""
+}
+
 func replayC11(raw json.RawMessage) (string, error) {
 	var c c11Case
 	if err := json.Unmarshal(raw, &c); err != nil {
@@ -210,6 +244,12 @@ func replayC11(raw json.RawMessage) (string, error) {
 			}
 		}
 		return "the copied System's bus serves its own arrays", nil
+	}
+	if c.Op == "read24" {
+		if what := c11Read24Check(s, c.Addr); what != "" {
+			return what, fmt.Errorf("unexplained:read24")
+		}
+		return "the 24-bit read equals the three single reads", nil
 	}
 	if c.Op == "dump" {
 		// EaDump(addr, addr+40) against single reads
@@ -398,6 +438,24 @@ func runC11(r *report.Run) {
 			}
 		}
 	}
+	// ---- 24-bit reads (the CPU's pointer / long-operand fetch) at every address: the three single reads
+	var read24 int64
+	if ds, err := c11NewSystem(); err == nil {
+		for _, k := range []uint{0, 3} {
+			c11Fill(ds, k)
+			for bank := 0; bank < 256; bank++ {
+				for o := uint32(0); o < 0x10000; o++ {
+					a := uint32(bank)<<16 | o
+					if w := c11Read24One(ds, a); w != "" {
+						r.Violation("unexplained:read24", w, c11Case{Op: "read24", Addr: a})
+						break
+					}
+				}
+				read24 += 0x10000
+			}
+		}
+	}
+	r.Set("reads_24bit", read24)
 	r.Set("map_seams", seams)
 	r.Set("block_reads_across_seams", dumps)
 	// ---- a System obtained by copying another one and initialising the copy (struct copy, then CreateEmulator):
@@ -560,7 +618,7 @@ func runC11(r *report.Run) {
 	r.Set("by_class", perClass)
 	r.Set("mirror_layers", int64(maxLayer))
 	r.Set("writes_executed", writes)
-	r.Set("rule", "a System initialised 141 times must still have the map of a fresh one (both edges of every seam); a System obtained by struct copy + CreateEmulator must serve its own arrays (both edges of every seam read and written, the original untouched); block reads: Bus.EaDump from 20, 8 and 1 bytes before every seam of the map (attached/unattached or another array) to 20 bytes after it, and over blocks inside one 16-byte cell on either side of the seam, must equal the single reads and leave holes untouched; reads: all 2^24 bus addresses x 4 passes (byte k of a unique location id planted in every ROM/SRAM/WRAM array cell) identify exactly which cell backs each address; writes: addresses grouped into mirror layers (j-th alias of each cell), each layer written ascending/descending with two complementary value patterns and all three arrays compared in full with the prediction after each run; non-trivial = address that both the emulator backs with an array cell and the LoROM mapper translates")
+	r.Set("rule", "a System initialised 141 times must still have the map of a fresh one (both edges of every seam); a System obtained by struct copy + CreateEmulator must serve its own arrays (both edges of every seam read and written, the original untouched); 24-bit reads: Bus.EaRead24_wrap at all 2^24 addresses under two fills must equal the three single reads (wrapping inside the bank); block reads: Bus.EaDump from 20, 8 and 1 bytes before every seam of the map (attached/unattached or another array) to 20 bytes after it, and over blocks inside one 16-byte cell on either side of the seam, must equal the single reads and leave holes untouched; reads: all 2^24 bus addresses x 4 passes (byte k of a unique location id planted in every ROM/SRAM/WRAM array cell) identify exactly which cell backs each address; writes: addresses grouped into mirror layers (j-th alias of each cell), each layer written ascending/descending with two complementary value patterns and all three arrays compared in full with the prediction after each run; non-trivial = address that both the emulator backs with an array cell and the LoROM mapper translates")
 	r.Set("exhaustive", true)
 	r.Sample(c11Case{Op: "read", Addr: 0x808000})
 	r.Sample(c11Case{Op: "write", Addr: 0x001FFF})
